@@ -10,6 +10,7 @@ sys.path.insert(0, ".")
 from mon import runner
 runner.build("rel")
 runner.build("chk")
+runner.build("rel", features="exp")
 cli = runner.build_cli()
 runner.build_intern("rel")
 runner.build_intern("chk")
